@@ -290,9 +290,11 @@ impl StorageBackend for SimDisk {
     }
     s.stats.writes += 1;
     s.stats.bytes_written += data.len() as u64;
+    // offsets and lengths only: page contents contain wall-clock timestamps
+    // (timing bookkeeping), which are deliberately left real
     s.digest = fnv(s.digest, &[3]);
     s.digest = fnv(s.digest, &offset.to_le_bytes());
-    s.digest = fnv(s.digest, data);
+    s.digest = fnv(s.digest, &(data.len() as u64).to_le_bytes());
     s.volatile[offset as usize..end].copy_from_slice(data);
     s.pending.push(Pending::Write(offset, data.to_vec()));
     Ok(())
